@@ -1,4 +1,5 @@
 import HexProofs.Writes.PropsLib
+import HexProofs.Writes.TwinTf
 import HexProofs.Facade.Settings
 /-
 C08 – Indicators inside a Hexital behave exactly like the same indicators standalone (every `F`).
@@ -32,8 +33,20 @@ Proved here:
     class it names (`dict_is_constructor`, `dict_is_amorph`), and the error behaviour is as in the library:
     no usable "indicator" / "analysis" key → `InvalidAnalysis` (`dict_missing_key`, `dict_falsy_key`), a
     keyword the class does not have → `TypeError` (`dict_unknown_keyword`).
-Stated, not proved (`members_FULL`): `member_standalone` for members WITH their own timeframe (needs the
-manager refinement: collapsing the default manager's candles = collapsing the raw stream).  Outside the settings
+  * `members_with_timeframe` (= `members_all`, `HexProofs/Writes/TwinTf.lean`): the statement `members_FULL` below word
+    for word for EVERY member – own timeframe or not – under every Hexital-level configuration (timeframe, gap filling,
+    Heikin-Ashi, lifespan), any construction candles and any appended chunks, with these presuppositions made
+    explicit: no collision / input dependency (`TreeOK N mem.tree`, the other members' names ⊆ `N`, as in
+    `member_standalone`), members sharing a timeframe NAME carry the same seconds (`hsecs`), and the member's timeframe
+    name is not the literal manager key "default".  Since the library's repair of `Hexital.__init__` (members with a
+    timeframe of their own are built from `source_candles`, the candles AS GIVEN to the constructor – model
+    `Hexital.attachFrom (some init)`) the member manager IS the standalone twin's manager by construction; the former
+    counterexample (a Hexital-level lifespan trimming at construction time, `members_FULL_counterexample`) no longer
+    holds and is kept as a positive example in `TwinTf.lean` (`TwinTfWitness`).
+Stated, not proved as such (`members_FULL`, kept as a `def … : Prop`): the bare statement lacks the hypotheses just
+listed (`TreeOK` / names ⊆ `N`, `hsecs`, the key condition); with them it is `members_with_timeframe`.  Still open:
+members WITH a timeframe added LATE by `add_indicator` (their manager is still built from the default manager's
+processed candles – `HandsOverRaw` in `TwinTf.lean`, part B; C13's `presence_FULL`).  Outside the settings
 model (see its header): the `TimeFrame` enum / `timedelta` / `int` forms of `timeframe` (strings only, ASCII),
 `str(multiplier)` in generated names (a parameter `mulStr` of `toInd`), values whose type differs from the
 annotation, a `candles` keyword inside a dict.
@@ -279,24 +292,30 @@ theorem settings_lose_counter_none :
 
 end Dicts
 
-/-- **General statement (not proved).**  For every Hexital configuration, member set (any mix of
-timeframes), raw stream and append schedule: each member's manager holds the same candles (OHLCV,
-timestamps, and the readings under the member's names) as a standalone indicator with the same
-effective configuration – `cfg` with the member's own timeframe if it has one – constructed from the
-same initial candles and fed the same chunks.
+/-- **General statement** (a bare `Prop`; proved with its presuppositions: `members_with_timeframe` below).  For every
+Hexital configuration, member set (any mix of timeframes), raw stream and append schedule: each member's manager holds
+the same candles (OHLCV, timestamps, and the readings under the member's names) as a standalone indicator with the
+same effective configuration – `cfg` with the member's own timeframe if it has one – constructed from the same initial
+candles and fed the same chunks.
 
-Status.  `member_standalone` above proves it for every member without its own timeframe (given the
-no-collision / no-input-dependency hypothesis `TreeOK`, which the property presupposes).  The members may
-equally be given as configuration dicts: by `settings_same_member` the `Member` registered for the dict
-`c.settings` is the `Member` of the object `c` (all 27 classes, domain `IndCfg.Valid`, exclusions witnessed),
-and by `dict_is_constructor` / `dict_is_amorph` ANY dict is built by the very keyword constructor a direct call
-runs – so the dict / settings construction forms add nothing to what is open.  Before the
-library's Heikin-Ashi repair the general statement was FALSE for Heikin-Ashi + a member timeframe (the
-member manager was built from already converted candles); the model now hands raw candles to a new
-member manager.  What is missing, and ONLY for members WITH a timeframe: that collapsing the default manager's
-processed candles equals collapsing the raw stream (C03's
-`Resample.run (Resample.run s ++ new) = Resample.run (s ++ new)`, plus the fill / lifespan interplay,
-which is not established: a Hexital-level `timeframe` AND a different member timeframe collapse twice). -/
+Status.  PROVED for EVERY member – with or without its own timeframe – and every Hexital-level timeframe / gap filling /
+Heikin-Ashi / lifespan as `members_with_timeframe` (= `Hex.members_all`), which is this statement word for word plus
+three explicit presuppositions: (1) no collision / no input dependency between the member and the others
+(`TreeOK N mem.tree` and the other members' names ⊆ `N`, exactly as in `member_standalone`); (2) `hsecs`: members
+sharing the member's timeframe NAME carry the same number of seconds (true of every parsed timeframe); (3) the member's
+timeframe name is not the literal manager key "default".  As a bare `Prop` this `def` lacks (1)–(3) – two members
+writing the same key, or two records with the same timeframe name and different seconds, falsify it – so it stays a
+`def` and is not claimed.  The members may equally be given as configuration dicts: by `settings_same_member` the
+`Member` registered for the dict `c.settings` is the `Member` of the object `c` (all 27 classes, domain
+`IndCfg.Valid`, exclusions witnessed), and by `dict_is_constructor` / `dict_is_amorph` ANY dict is built by the very
+keyword constructor a direct call runs.
+History.  Before the library's Heikin-Ashi repair the statement was false for Heikin-Ashi + a member timeframe (the
+member manager was built from already converted candles); before the repair of `Hexital.__init__` (`source_candles`)
+it was false for a Hexital-level lifespan that trims at construction time (the member manager was built from the
+default manager's trimmed candles: the former `members_FULL_counterexample`, now the positive example
+`Hex.TwinTfWitness`) and unproved for a Hexital-level timeframe next to a different member timeframe (collapsing twice).
+Now the constructor builds every member manager from the candles as given, so the member manager IS the twin's.
+What remains open concerns only members with a timeframe added LATE by `add_indicator` (C13 `presence_FULL`). -/
 def members_FULL : Prop :=
   ∀ {F : Type} [PyF F] (cfg : MgrCfg) (tfName : Option String) (members : List (Member F))
     (init : List (Candle F)) (chunks : List (List (Candle F))) (mem : Member F) (h : Hexital F)
@@ -315,6 +334,58 @@ def members_FULL : Prop :=
       ∀ k, k ∈ mem.tree.allNames →
         m.candles.map (fun c => (dlookup k c.inds, dlookup k c.subs)) =
         twin.mgr.candles.map (fun c => (dlookup k c.inds, dlookup k c.subs))
+
+/-- **`members_FULL` for every member, with its presuppositions** (= `Hex.members_all`).  `hoth` / `hok`: no
+collision, no input dependency; `hsecs`: one timeframe name, one number of seconds; `hkey`: the timeframe name is not
+the manager key "default".  Every Hexital-level timeframe / fill / Heikin-Ashi / lifespan, any construction candles,
+any chunks. -/
+theorem members_with_timeframe (cfg : MgrCfg) (tfName : Option String) (members : List (Member F))
+    (init : List (Candle F)) (chunks : List (List (Candle F))) (mem : Member F) (h : Hexital F)
+    (twin : IndState F) (N : List String)
+    (hmem : mem ∈ members) (huniq : ∀ m' ∈ members, m'.tree.name = mem.tree.name → m' = mem)
+    (hoth : ∀ m, m ∈ members → m.tree.name ≠ mem.tree.name → ∀ k, k ∈ m.tree.allNames → k ∈ N)
+    (hok : TreeOK N mem.tree)
+    (hsecs : ∀ m, m ∈ members → m.tfName = mem.tfName → m.tfSecs = mem.tfSecs)
+    (hkey : mem.tfName ≠ some defaultKey)
+    (hrun : (do let h ← Hexital.init cfg tfName init members
+                let h ← h.calculate none
+                chunks.foldlM (fun (h : Hexital F) ch => h.append ch) h) = .ok h)
+    (htwin : (do let s ← IndState.init mem.tree (match mem.tfName with
+                                                   | some _ => { cfg with tf := mem.tfSecs }
+                                                   | none => cfg) init
+                 let s ← s.calculate
+                 chunks.foldlM (fun (s : IndState F) ch => s.append ch) s) = .ok twin) :
+    ∃ hi m, dlookup mem.tree.name h.indicators = some hi ∧ dlookup hi.mgrKey h.managers = some m ∧
+      m.candles.map Candle.core = twin.mgr.candles.map Candle.core ∧
+      ∀ k, k ∈ mem.tree.allNames →
+        m.candles.map (fun c => (dlookup k c.inds, dlookup k c.subs)) =
+        twin.mgr.candles.map (fun c => (dlookup k c.inds, dlookup k c.subs)) :=
+  members_all cfg tfName members init chunks mem h twin N hmem huniq hoth hok hsecs hkey hrun htwin
+
+/-- `members_FULL` restricted to WELL-FORMED member lists (`hwf`: for every member, the names of the others lie in some
+`N` for which the member's tree is `TreeOK`; a timeframe name determines its seconds; no timeframe is called
+"default"): binders and conclusion of `members_FULL`, no other hypothesis -/
+theorem members_FULL_of_presuppositions (cfg : MgrCfg) (tfName : Option String) (members : List (Member F))
+    (hwf : ∀ mem ∈ members, mem.tfName ≠ some defaultKey ∧
+      (∀ m, m ∈ members → m.tfName = mem.tfName → m.tfSecs = mem.tfSecs) ∧
+      ∃ N, TreeOK N mem.tree ∧ ∀ m, m ∈ members → m.tree.name ≠ mem.tree.name → ∀ k, k ∈ m.tree.allNames → k ∈ N)
+    (init : List (Candle F)) (chunks : List (List (Candle F))) (mem : Member F) (h : Hexital F) (twin : IndState F)
+    (hmem : mem ∈ members) (huniq : ∀ m' ∈ members, m'.tree.name = mem.tree.name → m' = mem)
+    (hrun : (do let h ← Hexital.init cfg tfName init members
+                let h ← h.calculate none
+                chunks.foldlM (fun (h : Hexital F) ch => h.append ch) h) = .ok h)
+    (htwin : (do let s ← IndState.init mem.tree (match mem.tfName with
+                                                   | some _ => { cfg with tf := mem.tfSecs }
+                                                   | none => cfg) init
+                 let s ← s.calculate
+                 chunks.foldlM (fun (s : IndState F) ch => s.append ch) s) = .ok twin) :
+    ∃ hi m, dlookup mem.tree.name h.indicators = some hi ∧ dlookup hi.mgrKey h.managers = some m ∧
+      m.candles.map Candle.core = twin.mgr.candles.map Candle.core ∧
+      ∀ k, k ∈ mem.tree.allNames →
+        m.candles.map (fun c => (dlookup k c.inds, dlookup k c.subs)) =
+        twin.mgr.candles.map (fun c => (dlookup k c.inds, dlookup k c.subs)) := by
+  obtain ⟨hkey, hsecs, N, hok, hoth⟩ := hwf mem hmem
+  exact members_with_timeframe cfg tfName members init chunks mem h twin N hmem huniq hoth hok hsecs hkey hrun htwin
 
 /-! ### non-vacuity (toy carrier `Int`) -/
 
@@ -430,6 +501,36 @@ example : Settings.build ([("period", .int 3)] : Settings.SDict Int) = .error .i
 
 example : Settings.build ([("indicator", .str ""), ("analysis", .none)] : Settings.SDict Int) = .error .invalidConfig :=
   dict_falsy_key _ rfl rfl
+
+/-- hypotheses of `members_with_timeframe` on a concrete Hexital (`Hex.TwinTfEx`): Hexital-level timeframe `T1` with gap
+filling and a 5-minute lifespan that trims at construction time (14 half-minute candles = 7 minutes; the default
+manager keeps 6 of 7 buckets, `hyps1_nontrivial`), members `RSI_2_T2`, `SMA_2` (no timeframe), `SMA_2_T2` (T2 = 120 s)
+and `EMA_2_T3` (T3 = 180 s), five appended chunks (one empty).  Both the `T2` member and the `T3` member end with the
+candles and readings of their standalone twins (which do have readings, `hyps1_nontrivial`). -/
+example : ∃ h tw2 tw3 hi2 m2 hi3 m3, TwinTfEx.run1 = .ok h ∧
+    TwinTfEx.twinOf TwinTfEx.aT = .ok tw2 ∧ TwinTfEx.twinOf TwinTfEx.cT = .ok tw3 ∧
+    dlookup "SMA_2_T2" h.indicators = some hi2 ∧ dlookup hi2.mgrKey h.managers = some m2 ∧
+    m2.candles.map Candle.core = tw2.mgr.candles.map Candle.core ∧
+    storedUnder "SMA_2_T2" m2.candles = storedUnder "SMA_2_T2" tw2.mgr.candles ∧
+    dlookup "EMA_2_T3" h.indicators = some hi3 ∧ dlookup hi3.mgrKey h.managers = some m3 ∧
+    m3.candles.map Candle.core = tw3.mgr.candles.map Candle.core ∧
+    storedUnder "EMA_2_T3" m3.candles = storedUnder "EMA_2_T3" tw3.mgr.candles := by
+  obtain ⟨hnd, ⟨a1, a2, a3⟩, ⟨c1, c2, c3⟩, h7, h8, h9⟩ := TwinTfEx.hyps1
+  obtain ⟨h, hh⟩ := isOk_ok h7
+  obtain ⟨tw2, ht2⟩ := isOk_ok h8
+  obtain ⟨tw3, ht3⟩ := isOk_ok h9
+  have hm2 : TwinTfEx.aT ∈ TwinTfEx.members := by simp [TwinTfEx.members]
+  have hm3 : TwinTfEx.cT ∈ TwinTfEx.members := by simp [TwinTfEx.members]
+  obtain ⟨hi2, m2, p1, p2, p3, p4⟩ := members_with_timeframe TwinTfEx.cfg1 (some "T1") TwinTfEx.members
+    TwinTfEx.init1 TwinTfEx.chunks TwinTfEx.aT h tw2 TwinTfEx.others
+    hm2 (Member.uniq_of_nodup _ _ hm2 hnd) (Member.others_of_b _ _ _ a1) (treeOK_of_b a2)
+    (Member.secs_of_b _ _ a3) (by decide) hh ht2
+  obtain ⟨hi3, m3, q1, q2, q3, q4⟩ := members_with_timeframe TwinTfEx.cfg1 (some "T1") TwinTfEx.members
+    TwinTfEx.init1 TwinTfEx.chunks TwinTfEx.cT h tw3 TwinTfEx.others3
+    hm3 (Member.uniq_of_nodup _ _ hm3 hnd) (Member.others_of_b _ _ _ c1) (treeOK_of_b c2)
+    (Member.secs_of_b _ _ c3) (by decide) hh ht3
+  exact ⟨h, tw2, tw3, hi2, m2, hi3, m3, hh, ht2, ht3, p1, p2, p3, p4 "SMA_2_T2" (by decide),
+    q1, q2, q3, q4 "EMA_2_T3" (by decide)⟩
 
 end Examples
 
